@@ -44,10 +44,10 @@ type c17Case struct {
 	CwdDir int `json:"cwd_dir,omitempty"`
 }
 
-var c17DirNames = []string{"x/API", "foo", "foobar", "foo/bar", "ab1", "ab2", "a", "ab", "x/y", "x/yz", "models", "models2", "pkg/api", "pkg/apiserver"}
+var c17DirNames = []string{"x/API", "models-v2", "models/sub", "models.old", "foo", "foobar", "foo/bar", "ab1", "ab2", "a", "ab", "x/y", "x/yz", "models", "models2", "pkg/api", "pkg/apiserver"}
 
 var c17Pairs = [][]string{{"foo", "foobar"}, {"ab1", "ab2"}, {"a", "ab"}, {"x/y", "x/yz"}, {"pkg/api", "pkg/apiserver"}, {"models", "models2"}, {"foo", "foo/bar"}, {"foo/bar", "foobar"},
-	{"x/API", "x/api"}, {"Models", "models"}} // directories that differ only by case are different directories
+	{"x/API", "x/api"}, {"Models", "models"}, {"models", "models/sub", "models-v2"}, {"models", "models/sub", "models.old"}} // directories that differ only by case are different directories
 
 func c17Gen(t *rapid.T, r *h.Rec) c17Case {
 	var c c17Case
@@ -121,7 +121,7 @@ func pkgNameOf(dir string) string {
 	if dir == "" {
 		return "rootpkg"
 	}
-	return strings.NewReplacer("/", "_").Replace(filepath.Base(dir))
+	return strings.NewReplacer("/", "_", "-", "_", ".", "_").Replace(filepath.Base(dir))
 }
 
 func c17Check(c c17Case, r *h.Rec) error {
